@@ -8,14 +8,14 @@ import (
 	"github.com/textwire/textwire/v2/config"
 )
 
-var c18Files = []string{"a", "sub/c", "sub/deep/d", "a.bak", "b.twx", "x.tw/e.txt", "notes.txt", "sub/f.tw.old"}
+var c18Files = []string{"a", "sub/c", "sub/deep/d", ".hid/g", "a.bak", "b.twx", "x.tw/e.txt", "notes.txt", "sub/f.tw.old"}
 
 // HarnessC18Names: loading registers exactly the files whose names end in the extension, under their path relative
 // to the template directory without the extension, for several spellings of the directory.
 func HarnessC18Names() {
 	vfsReset()
 	ext := []string{".tw", ".tw.html", ".t"}[vChoice("ext", 3)]
-	dirSpelling := []string{"tpl", "tpl/", "./tpl", "nest/tpl", "tpl//", "other/../tpl"}[vChoice("dir", 6)]
+	dirSpelling := []string{"tpl", "tpl/", "./tpl", "nest/tpl", "tpl//", "other/../tpl", "tpl/sub/..", "tpl/.", "tpl/sub/deep/../.."}[vChoice("dir", 9)]
 	real := "tpl"
 	if dirSpelling == "nest/tpl" {
 		real = "nest/tpl"
@@ -24,13 +24,13 @@ func HarnessC18Names() {
 	// which of the candidate files exist is a (enumerated) subset: one "template" file set plus one decoy
 	decoy := vChoice("decoy", len(c18Files))
 	want := map[string]bool{}
-	for i, f := range c18Files[:3] {
+	for i, f := range c18Files[:4] {
 		_ = i
 		vfsWriteFile(real+"/"+f+ext, "T:"+f)
 		want[f] = true
 	}
 	d := c18Files[decoy]
-	if decoy >= 3 {
+	if decoy >= 4 {
 		// decoys carry the extension inside their name or directory, never at the end
 		name := strings.Replace(d, ".tw", ext, 1)
 		if !strings.HasSuffix(name, ext) {
@@ -47,6 +47,24 @@ func HarnessC18Names() {
 	}
 	_, nerr := tpl.String("unknown", nil)
 	vAssert(nerr != nil, "unknown-name-is-not-found")
+}
+
+// HarnessC18DoubleExt: a layout and a component whose template names themselves end in the extension.
+func HarnessC18DoubleExt() {
+	vfsReset()
+	ext := []string{".tw", ".t"}[vChoice("ext", 2)]
+	x := string([]byte{vByte("x")})
+	vfsWriteFile("templates/layouts/main"+ext+ext, "L[@reserve(\"r\")]")
+	vfsWriteFile("templates/components/card"+ext+ext, "<{{ t }}>")
+	if vChoice("shorter-sibling", 2) == 1 {
+		vfsWriteFile("templates/layouts/main"+ext, "WRONG[@reserve(\"r\")]")
+	}
+	vfsWriteFile("templates/page"+ext, "@use(\"~main"+ext+"\")@insert(\"r\")@component(\"~card"+ext+"\", {t: x})@end")
+	tpl, err := newTemplate("templates", ext)
+	vCover("loaded")
+	vAssert(err == nil && tpl != nil, "tree-with-names-ending-in-the-extension-loads")
+	out, ferr := tpl.String("page", map[string]any{"x": x})
+	vAssert(ferr == nil && vEqStr(out, "L[<"+x+">]"), "layout-and-component-are-found-by-their-full-name")
 }
 
 // HarnessC18NameKernel: nameFromPath on a path with symbolic bytes strips exactly the directory prefix and the
